@@ -17,7 +17,7 @@ for mp in sorted(glob.glob(os.path.join(V, "seeded", "C*", "meta.json"))):
     caught += bool(det)
     rows.append("| %s | %s | %s | %s |" % (k, m.get("needs_to_manifest", "").replace("|", "\\|"), ", ".join(det) if det else "**not caught**", first.get(k, "caught")))
 rows.append("")
-rows.append("%d of %d seeded changes are caught by the registered quick checks as of this revision; the others are explained in their rows (C17-F: not a violation of the statement as we read it; C08-T: made harmless by the repair feff992 of the genuine defect it exploited)." % (caught, n))
+rows.append("%d of %d seeded changes are caught by the registered quick checks as of this revision; the others are explained in their rows (C17-F and C10-V: not violations of the statements as we read them; C08-T: made harmless by the repair feff992 of the genuine defect it exploited)." % (caught, n))
 p = os.path.join(V, "DESIGN.md")
 s = open(p).read()
 a = s.index("(`seeded/<id>-<X>/meta.json` has the commands")
